@@ -266,6 +266,24 @@ pub fn run_c07(ctx: &mut Ctx) {
         or.count(&format!("requests={k}"));
         if ci == 0 { or.sample(format!("{k} request(s), buffer {b}; handler scripts {:?}; trace {}…", plans.iter().map(|p| p.script.chars().take(40).collect::<String>()).collect::<Vec<_>>(), &o[..o.len().min(200)])); }
     }
+    // a long-lived connection: hundreds of keep-alive requests on one connection (state that accumulates per request — a counter, a
+    // buffer that only grows — shows only here); the client is closed-loop as always, two of the requests are released in one read
+    for li in 0..ctx.n(1, 3) {
+        let k = 260 + rng.usize_below(60);
+        let mc = 1 + rng.usize_below(100);
+        let b = *rng.pick(&[64usize, 256, 1024]);
+        let plans: Vec<ReqPlan> = (0..k).map(|i| gen_req(&mut rng, true, if i % 37 == 5 { 1 } else { 0 }, mc, b, true)).collect();
+        let end = if li % 2 == 0 { "pend" } else { "eof" };
+        let op = conn_op(&plans, b, mc, end, &rd_script(&mut rng, 20), &wr_script(&mut rng, 20, false), "-", "none", true);
+        log.case(&format!("c07-long-{li}"));
+        let o = ex(&mut log, &mut im, &op);
+        let tr = parse_trace(&o);
+        let all_ok = plans.iter().all(|p| matches!(p.ret, Ret::Ok(..)));
+        let expect_fin = if all_ok && end == "pend" { "STALL" } else { "RET" };
+        if tr.fin != expect_fin { or.fail(format!("long-lived connection ({k} requests): task ended with {} (expected {expect_fin})", tr.fin), log.replay_block(), format!("C07:long-fin-{}", tr.fin)); }
+        check_conn(&mut or, &log, "C07", &plans, &tr, false);
+        or.eval((li, "long"), true); or.count("long_lived_connections"); or.count_n("requests_on_long_lived_connections", k as u64);
+    }
     or.count_n("corr_ops", log.nops);
     log.finish();
     or.write(&ctx.dir);
